@@ -1,1 +1,17 @@
-From Arche Require Import Model.Base.
+(** C15 - Reset returns the world to the behaviour of a fresh one (level: partial).
+    Proved on the model: after Reset the entity pool, the entity index, the target bits and
+    the lock mask are exactly those of a new world, all resources are gone, the world is
+    unlocked, and component ids, resource ids, the listener and the registered filters (ids
+    and original filters) are kept.  That the retained table structure behaves like a fresh
+    one for all later operations is decided by the correspondence run (profile reset). *)
+From Arche Require Import Model.Base Model.Pool Model.World Model.Ops Proofs.Misc.
+
+Theorem C15_reset_state : forall w,
+  let w' := world_reset w in
+  w_pool w' = pool_init /\ w_index w' = [None] /\ w_tbits w' = [false] /\ w_locks w' = locks_init (w_tb w) /\
+  w_res w' = replicate (w_tb w) None /\ w_reg w' = w_reg w /\ w_resreg w' = w_resreg w /\ w_listener w' = w_listener w /\
+  w_cnext w' = w_cnext w /\ map c_id (w_cache w') = map c_id (w_cache w) /\ map c_filter (w_cache w') = map c_filter (w_cache w) /\
+  is_locked w' = false.
+Proof. exact world_reset_abs. Qed.
+
+Print Assumptions C15_reset_state.
